@@ -285,3 +285,49 @@ def bool_equiv(nf: NF, mi, e1, e2, cfg1=None, at1=None, cfg2=None, at2=None, max
     if same:
         return True
     return False if k1 == k2 else None
+
+
+def selector_table(nf: NF, mi, cfg, items, pred_ast, label_true, label_false, opaque=(), max_atoms: int = 8, pred_at=None):
+    """Decide whether a branching construct selects by a documented predicate.
+
+    ``items``: [(conditions, label)] - one entry per path; conditions = [(test AST, CFG node id where it is evaluated, taken?)].
+    The paths are assumed exhaustive and exclusive (they come from one CFG).  In every world (trichotomy model, see bool_equiv)
+    every path whose conditions hold must carry ``label_true`` if the predicate holds and ``label_false`` otherwise.
+    Returns (True, None) | (False, witness world) | (None, reason)."""
+    import itertools
+    sc = Scope(cfg, mi, {}, "sel")
+    sc.opaque_names = set(opaque)
+    forms = []
+    for conds, label in items:
+        fs = []
+        for test, at, taken in conds:
+            f = _bool_atoms(nf, test, sc, at, {})
+            fs.append(f if taken else ("not", f))
+        forms.append((("and", tuple(fs)) if fs else ("and", ()), label))
+    if pred_at is not None:
+        ps = Scope(cfg, mi, {}, "pred")
+        ps.opaque_names = set(opaque)
+    else:
+        ps = Scope(None, mi, {}, "pred")
+    pf = _bool_atoms(nf, pred_ast, ps, pred_at, {})
+
+    def keys(f):
+        return {("atom", l[1]) if l[0] == "atom" else ("pair",) + tuple(sorted((l[2], l[3]))) for l in _leaves(f)}
+    kp = keys(pf)
+    ki = set().union(*[keys(f) for f, _ in forms]) if forms else set()
+    if not kp <= ki:
+        return None, f"the documented predicate compares {sorted(kp - ki)[:2]}, which the code does not"
+    extra = ki - kp
+    allk = sorted(ki)
+    if len(allk) > max_atoms:
+        return None, "too many atoms"
+    doms = [("<", "=", ">") if k[0] == "pair" else (True, False) for k in allk]
+    for combo in itertools.product(*doms):
+        val = dict(zip(allk, combo))
+        want = label_true if _eval(pf, val) else label_false
+        for f, label in forms:
+            if _eval(f, val) and label != want:
+                if extra:
+                    return None, f"selection also depends on {sorted(extra)[:2]}"
+                return False, {str(k[1:] if k[0] == 'pair' else k[1]): v for k, v in val.items()}
+    return True, None
